@@ -11,16 +11,30 @@ const readline = require('readline');
 const sets = new Map();
 const rl = readline.createInterface({ input: process.stdin, crlfDelay: Infinity, terminal: false });
 
+// The per-pattern loop runs inside a vm context so that a watchdog can stop a
+// catastrophically backtracking pattern (irregexp honours TerminateExecution).
+// A timeout only ever makes this oracle abstain for the pattern.
+const vm = require('vm');
+const ctx = vm.createContext({});
+vm.runInContext(`
 function run(re, subs, extra) {
   const n = subs.length + extra.length;
-  const bits = Buffer.alloc((n + 7) >> 3);
+  const bits = new Uint8Array((n + 7) >> 3);
   for (let i = 0; i < subs.length; i++) {
     if (re.test(subs[i])) bits[i >> 3] |= 1 << (i & 7);
   }
   for (let j = 0, i = subs.length; j < extra.length; j++, i++) {
     if (re.test(extra[j])) bits[i >> 3] |= 1 << (i & 7);
   }
-  return bits.toString('base64');
+  return bits;
+}`, ctx);
+const loop = new vm.Script('run(re, subs, extra)');
+const TIMEOUT_MS = Number(process.env.RE_ORACLE_TIMEOUT_MS || 3000);
+
+function run(re, subs, extra) {
+  ctx.re = re; ctx.subs = subs; ctx.extra = extra;
+  const bits = loop.runInContext(ctx, { timeout: TIMEOUT_MS });
+  return Buffer.from(bits.buffer, bits.byteOffset, bits.byteLength).toString('base64');
 }
 
 rl.on('line', (line) => {
@@ -47,6 +61,7 @@ rl.on('line', (line) => {
     if (reN) out.rn = run(reN, subs, extra);
   } catch (e) {
     out.error = String(e && e.message);
+    out.timeout = !!(e && e.code === 'ERR_SCRIPT_EXECUTION_TIMEOUT');
   }
   process.stdout.write(JSON.stringify(out) + '\n');
 });
